@@ -17,6 +17,10 @@ pub struct Case {
     pub mis: usize,
     pub declared: u32,
     pub key: u64,
+    /// Some(x): the first eight bytes behind the header hold x (little endian) -
+    /// content that an "extended size" convention of other formats would read
+    #[serde(default)]
+    pub payload64: Option<u64>,
 }
 
 fn hdr_size(h: u8) -> usize {
@@ -55,6 +59,12 @@ fn content(c: &Case) -> Vec<u8> {
     } else if extreme == 2 {
         for w in 0..4 {
             put(&mut v, 4 * w, 1 + ((c.key >> (16 + 3 * w)) as u32 % 640));
+        }
+    }
+    if let Some(x) = c.payload64 {
+        let h = hdr_size(c.hdr);
+        if v.len() >= h + 8 {
+            v[h..h + 8].copy_from_slice(&x.to_le_bytes());
         }
     }
     match c.hdr {
@@ -223,13 +233,23 @@ fn enumerate(ctx: &Ctx) -> Box<dyn Iterator<Item = Case>> {
     let it = (0u8..5).flat_map(move |hdr| {
         (0..=max_len).flat_map(move |len| {
             (0..8usize).flat_map(move |mis| {
-                (0..=(len + 16) as u32).map(move |declared| Case { hdr, len, mis, declared, key: (len * 8 + mis) as u64 | ((declared as u64 + len as u64) % 4) << 9 | (declared as u64) << 11 })
+                (0..=(len + 16) as u32).map(move |declared| Case { hdr, len, mis, declared, key: (len * 8 + mis) as u64 | ((declared as u64 + len as u64) % 4) << 9 | (declared as u64) << 11, payload64: None })
             })
         })
     });
     // a size field of all ones (with the other header bytes all ones, markers or zero)
-    let ones = (0u8..5).flat_map(|hdr| [8usize, 16, 24, 64].into_iter().flat_map(move |len| (0..8u64).map(move |k| Case { hdr, len, mis: 0, declared: u32::MAX, key: k << 13 | (k & 3) << 9 })));
-    Box::new(it.chain(ones))
+    let ones = (0u8..5).flat_map(|hdr| [8usize, 16, 24, 64].into_iter().flat_map(move |len| (0..8u64).map(move |k| Case { hdr, len, mis: 0, declared: u32::MAX, key: k << 13 | (k & 3) << 9, payload64: None })));
+    // escape values in the size field (all ones, all ones - 1, zero) with a small
+    // 64-bit number right behind the header, as formats with an "extended size" have it
+    let esc = (0u8..5).flat_map(|hdr| {
+        [24usize, 32, 64].into_iter().flat_map(move |len| {
+            [u32::MAX, u32::MAX - 1, 0, 1].into_iter().flat_map(move |declared| {
+                let h = hdr_size(hdr) as u64;
+                [h, h + 8, 16, 24, len as u64, len as u64 + 8].into_iter().map(move |x| Case { hdr, len, mis: 0, declared, key: x, payload64: Some(x) })
+            })
+        })
+    });
+    Box::new(it.chain(ones).chain(esc))
 }
 
 /// Sizes at which a structure crosses something a specification or the
@@ -255,7 +275,7 @@ fn strategy(_: &Ctx) -> BoxedStrategy<Case> {
                 _ => (len as u32 / 8 * 8).saturating_sub(d % 9),
             };
             let len = if mode == 5 { len / 8 * 8 } else { len };
-            Case { hdr, len, mis, declared, key }
+            Case { hdr, len, mis, declared, key, payload64: if key % 19 == 0 { Some(key >> 32 & 0xff) } else { None } }
         })
         .boxed()
 }
